@@ -449,7 +449,13 @@ func (a *Analysis) CheckC14(rep *Report) {
 						rep.Ob("H2-service-stateless", name+":store", false, epos, "Calc stores into the registered (shared) service object: "+e.Dst.Pretty())
 					}
 				case EvLoadGlobal:
-					rep.Ob("H2-deterministic", name+":"+e.Recv.Pretty(), false, epos, "Calc reads package-level state "+e.Recv.Pretty())
+					okTable := false
+					if r := addrRoot(e.Recv); r != nil && r.Op == "global" {
+						if g, isG := r.Aux.(*ssa.Global); isG && a.immutableTable(g) {
+							okTable = true // a lookup table fixed at start-up and only ever indexed for reading
+						}
+					}
+					rep.Ob("H2-deterministic", name+":"+e.Recv.Pretty(), okTable, epos, "Calc reads package-level state "+e.Recv.Pretty())
 				case EvCall:
 					rep.Ob("H2-deterministic", name+":"+e.Mode, false, epos, "Calc calls "+e.Mode+", which is outside the model")
 				case EvMapRead, EvMapWrite, EvGo, EvLock:
